@@ -7,6 +7,8 @@ CONSTANTS MaxLinks = 1
  Muxes = {3}
  BIdx = {1}
  DiscardVi = "link"
+ Streaming = FALSE
+ PinSer = FALSE
  PLen = 2
  ReadLens = {1,100}
  MaxCalls = 3
@@ -16,5 +18,6 @@ INVARIANT OpenOK
 INVARIANT PositionTruth
 INVARIANT ReadContinues
 INVARIANT ReadOutcome
+INVARIANT InOrder
 INVARIANT SeekOutcome
 CHECK_DEADLOCK FALSE
